@@ -61,7 +61,15 @@ def main():
             if seed is not None:
                 env["VERIF_SEED"] = seed
             t0 = time.time()
-            r = sh([os.path.join(ROOT, "vcheck"), "check", prop, "--tier", tier], cwd=ROOT, env=env)
+            # the evidence files describe the unchanged tree: keep them, put them back afterwards
+            ev_paths = [os.path.join(ROOT, "evidence", f"{prop}.json"), os.path.join(ROOT, "evidence", f"{prop}.{tier}.json")]
+            saved = {q: open(q, "rb").read() for q in ev_paths if os.path.exists(q)}
+            try:
+                r = sh([os.path.join(ROOT, "vcheck"), "check", prop, "--tier", tier], cwd=ROOT, env=env)
+            finally:
+                for q, b in saved.items():
+                    with open(q, "wb") as f:
+                        f.write(b)
             sigs = re.findall(r"^  sig: (.*)$", r.stdout, re.M)
             verdict = {0: "MISSED", 1: "DETECTED", 2: "INCONCLUSIVE"}.get(r.returncode, f"EXIT{r.returncode}")
             incon = re.findall(r"^INCONCLUSIVE.*$", r.stdout, re.M)
